@@ -82,6 +82,8 @@ func (b *proxyIDRingBuffer) Append(proxyID int64, sourceShard history.ClusterSha
 				}
 				expected++
 			}
+			// Filling holes may have used up the last free slot.
+			b.ensureCapacity()
 		}
 	}
 	pos := (b.head + b.size) % len(b.entries)
